@@ -77,13 +77,27 @@ class Graph:
         self._build()
 
     def _build(self):
+        self._shared_buffer = torch.zeros(64, dtype=self.dtype)
+        self._shared_used = 3
         for leaf in self.spec["leaves"]:
             x = torch.tensor(leaf["vals"], dtype=self.dtype).reshape(tuple(leaf["shape"]))
             x = x.clone()
             if leaf.get("layout") == "t" and x.ndim >= 2:
                 # same logical values, non-contiguous memory (like the weight of a transposed layer)
                 x = x.transpose(0, -1).contiguous().transpose(0, -1)
+            if leaf.get("layout") == "s":
+                # a leaf that is a window into a larger buffer (non-zero storage offset, storage shared with others)
+                buf = self._shared_buffer
+                n_el = x.numel()
+                start = self._shared_used
+                if start + n_el <= buf.numel():
+                    self._shared_used += n_el
+                    win = buf[start : start + n_el].view(x.shape)
+                    win.copy_(x)
+                    x = win.detach()
             x.requires_grad_(bool(leaf["rg"]))
+            if leaf.get("kind") == "param" and leaf["rg"]:
+                x = torch.nn.Parameter(x)
             self.t[leaf["name"]] = x
             self.leaf_names.append(leaf["name"])
         for node in self.spec["nodes"]:
@@ -143,6 +157,18 @@ class Graph:
         if op == "probe":
             if not ins[0].requires_grad:
                 return [ins[0].view_as(ins[0])]
+            if p.get("hook"):
+                y = ins[0].view_as(ins[0])
+                tag, log = p["tag"], self.log
+
+                def _hook(g, tag=tag, log=log):
+                    batched = bool(_F.is_batchedtensor(g))
+                    bs = int(_F.get_unwrapped(g).shape[_F.maybe_get_bdim(g)]) if batched else None
+                    log.events.append(("sweep", tag, "vmap" if batched else "seq", bs))
+                    return g
+
+                y.register_hook(_hook)  # a user-registered tensor hook (logging / clipping style), identity in value
+                return [y]
             return [
                 _Probe.apply(
                     ins[0], p["tag"], bool(p.get("hostile", False)), bool(p.get("saves", False)), self.log
